@@ -24,7 +24,8 @@ type TLCOpts struct {
 	DFS      bool // StateDeque queue
 	Coverage bool
 	Extra    []string
-	Scratch  string // scratch dir (created, removed by caller via Cleanup)
+	Scratch  string              // scratch dir (created, removed by caller via Cleanup)
+	CfgEdit  func(string) string // optional rewrite of the config file text (constant overrides)
 	HeapGB   int
 }
 
@@ -89,6 +90,16 @@ func RunTLC(o TLCOpts) (*TLCResult, error) {
 	}
 	for name, b := range o.Data {
 		if err := os.WriteFile(filepath.Join(o.Scratch, name), b, 0o644); err != nil {
+			return nil, err
+		}
+	}
+	if o.CfgEdit != nil {
+		cp := filepath.Join(o.Scratch, o.Config)
+		b, err := os.ReadFile(cp)
+		if err != nil {
+			return nil, err
+		}
+		if err := os.WriteFile(cp, []byte(o.CfgEdit(string(b))), 0o644); err != nil {
 			return nil, err
 		}
 	}
